@@ -29,7 +29,7 @@ ActsCreate == {a \in Only({"insert1", "insertbad", "insertbad2", "insertdup", "r
               \cup {a \in Only({"createas"}) : a.u = "f1"}
               \cup Only({"create", "commit", "rollback"})
 \* reads of every form around commits of another process
-ActsReads == Only({"select", "selectsub", "selectfn", "selectagg", "selectpath", "insertpath", "env", "update", "insertsel", "updatejoin", "commit", "rollback"})
+ActsReads == Only({"select", "selectsub", "selectfn", "selectinline", "selectagg", "selectpath", "insertpath", "env", "update", "insertsel", "updatejoin", "commit", "rollback"})
 Depth6 == TLCGet("level") <= 6
 Depth5 == TLCGet("level") <= 5
 =============================================================================
